@@ -123,6 +123,7 @@ func c07Corpus(c *Ctx, r *rand.Rand) []map[string]string {
 		}
 		out = append(out, map[string]string{"main/main.go": c04Source(sub[i:j]) + "\nfunc Main() {}\n"})
 	}
+	out = append(out, map[string]string{"main/main.go": c04fSource(c04fFunctions(c, r)) + "\nfunc Main() {}\n"})
 	for i := 0; i < c.pick(30, 400); i++ {
 		src, _ := c12GenProgram(r, i)
 		out = append(out, map[string]string{"main/main.go": src})
@@ -146,7 +147,7 @@ func c07Corpus(c *Ctx, r *rand.Rand) []map[string]string {
 var extraCorpus []func(c *Ctx, r *rand.Rand) []map[string]string
 
 func checkC07(c *Ctx) {
-	c.Rule = "programs = hand-written seed programs, the C04 operator/position table package, generated struct programs, generated map-history programs and the control-flow / scoping / call generators of C06, C08, C09; each compiled with the optimizer on and off; every region (top level, every function and function literal) explored on all paths; distinct_nontrivial = distinct (program, region) pairs whose code contains a jump or a call"
+	c.Rule = "programs = hand-written seed programs, the C04 operator/position table packages (integers and float64), generated struct programs, generated map-history programs and the control-flow / scoping / call generators of C06, C08, C09; each compiled with the optimizer on and off; every region (top level, every function and function literal) explored on all paths; distinct_nontrivial = distinct (program, region) pairs whose code contains a jump or a call"
 	c.Assumptions = []string{"GoatVMEffects.tla is the operand-stack effect table read off do.go at the pinned commit; the step traces of real runs re-validate it on every run", "corpus programs are valid Go (every statement is stack-neutral by the language definition)"}
 	r := rand.New(rand.NewSource(c.Seed))
 	corpus := c07Corpus(c, r)
